@@ -349,6 +349,10 @@ func returnsTrueOnlyAfterInsert(g *ssa.Function, field string) (bool, string) {
 		if cst, ok := stripConv(vr.Vals[0]).(*ssa.Const); ok && cst.Value != nil && cst.Value.String() == "false" {
 			continue
 		}
+		// a computed flag (`created = nil == err … return created`) that is false on every way to this exit
+		if bits, known := gcs.EvalValue(cellValue(vr.Vals[0])); known && !gcs.Satisfiable(and(vr.Cond, bits)) {
+			continue
+		}
 		nTrue++
 		dominated := false
 		for _, mu := range inserts {
